@@ -55,7 +55,9 @@ Proof. reflexivity. Qed.
 (* appRecordsType.validEvent refuses a singleton create whenever a record - active or not - sits at the singleton's ID *)
 Lemma singleton_slot_guarded : c04_singleton_slot_guard = true.
 Proof. reflexivity. Qed.
-Lemma update_on_sync_guarded : c04_update_on_sync_guarded = true.
+(* UpdateOnSync ignores MaxUint64 only (F42): every other ID - in particular every ID the generator can have handed
+   out - moves the generator, live and on recovery *)
+Lemma update_on_sync_guarded : c04_update_on_sync_limit = 18446744073709551614.
 Proof. reflexivity. Qed.
 
 (* ================= 1. generated IDs are user IDs, handed out in increasing order ================= *)
@@ -308,7 +310,7 @@ Qed.
 
 (* F42: without the guard UpdateOnSync(MaxUint64) resets the generator to 0; with it the generator stays *)
 Lemma update_on_sync_wrapped_without_guard :
-  update_on_sync_gen false c04_first_user_id 18446744073709551615 = 0
+  update_on_sync_gen 18446744073709551615 c04_first_user_id 18446744073709551615 = 0
   /\ update_on_sync c04_first_user_id 18446744073709551615 = c04_first_user_id.
 Proof. split; vm_compute; reflexivity. Qed.
 
